@@ -741,8 +741,10 @@ def decide(prop, tier, seed):
             except Exception as e: cov['unsafe_inventory'] = {'error': repr(e)}
     ev = {'property_id': prop, 'tier': tier, 'seed': seed, 'level': level, 'coverage': cov, 'assumptions': assumptions,
           'wall_s': round(time.time() - t0, 2), 'violations': len(unlisted)}
-    os.makedirs(os.path.join(VERIF, 'evidence'), exist_ok=True)
-    json.dump(ev, open(os.path.join(VERIF, 'evidence', prop + '.json'), 'w'), indent=1)
+    # evidence/<id>.json describes /repo itself; a run against an alternate tree (VERIF_REPO, used for seeded changes) writes elsewhere
+    evdir = os.path.join(VERIF, 'evidence') if REPO == '/repo' else os.path.join(WORK, 'evidence-alt')
+    os.makedirs(evdir, exist_ok=True)
+    json.dump(ev, open(os.path.join(evdir, prop + '.json'), 'w'), indent=1)
     print('%s tier=%s obligations=%d discharged=%d violations=%d known=%d undecided=%d wall=%.1fs' % (
         prop, tier, obligations, discharged, len(unlisted), len(known), len(undecided), time.time() - t0))
     return rc
